@@ -197,6 +197,17 @@ def rule_item_reads(model):
         mshort, qual = where.split(':')
         fi = model.func(mshort, qual)
         g = _item_guard_name(model, fi)
+        if g:
+            defs = model.local_defs(fi, g)
+            if len(defs) != 1:
+                extra = [d for d in defs if not (
+                    isinstance(d, ast.Call) or isinstance(d, ast.Attribute))]
+                for d in extra:
+                    r.finding(where, f'{g} = {norm(d) if not isinstance(d, (str, tuple)) else d}',
+                              f'the item guard `{g}` is overridden after it '
+                              'was taken from the namespace: items are then '
+                              'read without consulting the guard',
+                              node=fi.node, ctx=fi)
         # validation pass: for i in range(len(seq)): g(seq, i)
         validated = set()
         if g:
@@ -278,8 +289,9 @@ class US(BaseState):
 
 
 class UnderscoreDomain(Domain):
-    def __init__(self, fi, key):
+    def __init__(self, fi, key, model=None):
         self.fi = fi
+        self.model = model
         self.keyname = key
         self.problems = []
         self.reads = 0
@@ -307,8 +319,21 @@ class UnderscoreDomain(Domain):
         k = self.keyname
         for n in ast.walk(node):
             if isinstance(n, ast.Call) and len(n.args) == 2 and \
-                    norm(n.args[0]) == 'self.inst' and norm(n.args[1]) == k:
+                    norm(n.args[0]) == 'self.inst':
                 self.reads += 1
+                a = n.args[1]
+                same = norm(a) == k
+                if not same and isinstance(a, ast.Name):
+                    defs = self.model.local_defs(self.fi, a.id)
+                    same = len(defs) == 1 and isinstance(defs[0], ast.Name) \
+                        and defs[0].id == k
+                if not same:
+                    self.problems.append((n, 'the client object is read by '
+                                          f'`{norm(a)}`, not by the name '
+                                          f'`{k}` the underscore refusal '
+                                          'was applied to (a transformed '
+                                          'name can start with an '
+                                          'underscore again)'))
                 if not st.checked:
                     self.problems.append((n, 'the client object is read by '
                                           'a name that has not been tested '
@@ -338,7 +363,7 @@ def rule_underscore(model):
                    'one')
     fi = model.func('_DocumentTemplate', 'InstanceDict.__getitem__')
     key = fi.params()[1]
-    dom = UnderscoreDomain(fi, key)
+    dom = UnderscoreDomain(fi, key, model)
     Interp(dom).run(fi.node, US())
     r.instance(fi.where, f'{dom.reads} client read(s), {dom.stores} cache '
                'store(s)')
